@@ -105,7 +105,7 @@ class ServicePart(IntEnum):
 
 def _split_address(string):
     if string.startswith('['):
-        end = string.find(']')
+        end = string.rfind(']')
         if end != -1:
             if len(string) == end + 1:
                 return string[1:end], ''
